@@ -31,3 +31,13 @@ pub(crate) mod verif_entry_common {
 
     pub fn sid(s: &str) -> SharedString { SharedString::from(s) }
 }
+
+// Ghost observers on handles (model build only).
+#[cfg(kani)]
+#[allow(dead_code)]
+impl<T> Handle<T> {
+    pub(crate) fn inner_is_static(&self) -> bool { self.inner.dynamic.is_none() }
+}
+#[cfg(kani)]
+#[allow(dead_code)]
+impl<T: std::ops::Deref> Handle<T> { }
